@@ -54,7 +54,7 @@ Definition canonical (kb : kbody) : bool :=
   match kyielded kb with [None] => true | _ => false end.
 
 (* ---------------------------------------------------------------- LowerRescale and the result type *)
-(* LowerRescale (after the repair of F-C18-3, /repo 241b7f1) converts the clamped i32 value to the result type
+(* LowerRescale (after the repair of F-C18-3, /repo 97622cd) converts the clamped i32 value to the result type
    of the kernel.rescale op: arith.trunci for a narrower type, nothing for i32, arith.extsi for a wider one.
    `wout` = width of the result / output block argument.  Before the repair the body always ended in
    `trunci ... to i8` (`rescale_region_for_old`). *)
